@@ -2,7 +2,7 @@ CLAIMED = True
 SPEC = {
     "id": "C16",
     "props": "PlzVerif/Props/C16.lean",
-    "extract": ["c16"],
+    "extract": ["c16", "c18"],
     "harness": "c16",
     "driver": "Driver/C16.lean",
     "needs_plz": False,
